@@ -111,7 +111,36 @@ func c10Trial(c *rt.Ctx, sub int, r *rand.Rand, G, procs, opsPer int, yieldMode 
 					v.Field(1).Set(reflect.ValueOf(map[string]any{"k": []any{id, map[string]any{"d": []any{id, "x"}}}}))
 					v.Field(2).Set(reflect.ValueOf(&QT{A: id, C: &QT{A: 1, B: "in"}}))
 					v.Field(3).SetString("z")
-					b, err := gojson.Marshal(v.Addr().Interface())
+					// every entry point pins the running program on its own (three copies of the
+					// routine in encode.go): rotate through them
+					var b []byte
+					var err error
+					x := v.Addr().Interface()
+					switch id % 6 {
+					case 0:
+						b, err = gojson.Marshal(x)
+					case 1:
+						b, err = gojson.MarshalIndent(x, "", " ")
+					case 2:
+						b, err = gojson.MarshalNoEscape(x)
+					case 3:
+						b, err = gojson.MarshalContext(context.Background(), x)
+					case 4:
+						var w bytes.Buffer
+						enc := gojson.NewEncoder(&w)
+						enc.SetIndent("", "\t")
+						err = enc.Encode(x)
+						b = bytes.TrimSuffix(w.Bytes(), []byte("\n"))
+					default:
+						b, err = gojson.MarshalIndentWithOption(x, "", "  ", gojson.UnorderedMap())
+					}
+					if err == nil && (id%6 == 1 || id%6 >= 4) {
+						var cb bytes.Buffer
+						if cerr := stdjson.Compact(&cb, b); cerr != nil {
+							return "indented output is not JSON: " + cerr.Error() + ": " + string(b), "valid JSON"
+						}
+						b = cb.Bytes()
+					}
 					return string(b) + errS(err), fmt.Sprintf(`{"%s":%d,"I":{"k":[%d,{"d":[%d,"x"]}]},"R":{"A":%d,"B":"","C":{"A":1,"B":"in","C":null,"D":null,"E":null},"D":null,"E":null},"Z":"z"}`, freshTag[ti], id, id, id, id)
 				}})
 			case 21:
